@@ -56,6 +56,11 @@ type Opts struct {
 	// the domain (as it is for C14) but simply in the way: the add is a plain add whose parent
 	// cannot be reached. Used by C08, which asks how that failure is reported.
 	ScalarBlocksEnsure bool
+	// ZeroPaddedAreNames: when EnsurePath decides whether a missing parent becomes an array or an
+	// object it looks at the next token; a token such as "01", "00", "+1" or "-0" is not an array
+	// index (RFC 6901: "0" or a digit string without leading zero) and therefore a member name.
+	// Inside C14's stated domain ("member names or non-negative canonical indices").
+	ZeroPaddedAreNames bool
 }
 
 type Result struct {
@@ -159,6 +164,24 @@ func (e *Evaluator) index(tok string) (idx int, neg bool, ok bool) {
 		n = n*10 + int(c-'0')
 	}
 	return n, neg, true
+}
+
+// looksNumericNotCanonical: optional sign, digits, but not an RFC 6901 array index and not a
+// negative index in the library's dialect ("01", "00", "+1", "-0", "-01").
+func looksNumericNotCanonical(t string) bool {
+	s := t
+	if s != "" && (s[0] == '+' || s[0] == '-') {
+		s = s[1:]
+	}
+	if s == "" {
+		return false
+	}
+	for _, c := range s {
+		if c < '0' || c > '9' {
+			return false
+		}
+	}
+	return t[0] == '+' || (len(s) > 1 && s[0] == '0') || t == "-0"
 }
 
 // elemIndex resolves tok to an existing element position of array a.
@@ -348,7 +371,9 @@ func (e *Evaluator) ensure(toks []string) {
 		}
 		var nc *jr.Value
 		nt := toks[i+1]
-		if _, neg, ok := e.index(nt); ok || nt == "-" {
+		if e.O.ZeroPaddedAreNames && looksNumericNotCanonical(nt) {
+			nc = &jr.Value{K: jr.Obj}
+		} else if _, neg, ok := e.index(nt); ok || nt == "-" {
 			if neg {
 				e.setOOD("ensure: negative index")
 				return
